@@ -965,6 +965,10 @@ from ..selftest import Seed, unparse_seed  # noqa: E402
 _P = "src/odfdo/paragraph.py"
 _EL = "src/odfdo/element.py"
 SEEDS = [
+    Seed("Annotation.delete computes the tail flag of its end mark", "fault", "src/odfdo/note.py",
+         "        if end:\n            end.delete()\n", "        if end:\n            end.delete(keep_tail=end.parent is self.parent)\n", "R09n"),
+    Seed("Annotation.delete names the default tail flag", "neutral", "src/odfdo/note.py",
+         "        if end:\n            end.delete()\n", "        if end:\n            end.delete(keep_tail=True)\n"),
     Seed("_insert takes a shortcut through addnext when the match opens the tail", "fault", _EL,
          "        if text.is_text:  # type: ignore\n            parent.text = text_before", "        if before is not None and pos == 0 and not text.is_text:  # type: ignore\n            parent.addnext(xelement)\n        elif text.is_text:  # type: ignore\n            parent.text = text_before", "R09m"),
     Seed("Link() trims its label", "fault", "src/odfdo/link.py", "            self.text = text\n", "            self.text = text.strip()\n", "R09l"),
